@@ -10,7 +10,7 @@
 From Coq Require Import List NArith ZArith Bool Permutation.
 From Common Require Import Outcome.
 From BlockTree Require Import Model Spec ProofsTree ProofsPath ProofsSpec ProofsSim ProofsQuery
-  ProofsBest ProofsHist ProofsPre.
+  ProofsBest ProofsHist ProofsPre ProofsOrder.
 Import ListNotations.
 Local Open Scope N_scope.
 
@@ -82,6 +82,21 @@ Theorem C16_insertion_order_free : forall h x a1 a2 ops1 ops2 pi1 sigma1 pi2 sig
 Proof. exact insertion_order_free. Qed.
 Print Assumptions C16_insertion_order_free.
 
+(* ... in EVERY parent-first order: if a set of additions is accepted in one order, then any
+   permutation of it in which every block comes after its parent (parent_first: the parent is
+   the root or an earlier addition) is accepted as well, block by block, and gives the same best
+   block.  No acceptance hypothesis on the second order. *)
+Theorem C16_every_parent_first_order : forall h x a1 a2 ops1 ops2 pi1 sigma1 pi2 sigma2,
+  Permutation ops1 ops2 ->
+  all_adds_ok (snd (run (new_tree h x a1) ops1)) ->
+  parent_first h [] ops2 ->
+  permuting pi1 -> permuting sigma1 -> permuting pi2 -> permuting sigma2 ->
+  all_adds_ok (snd (run (new_tree h x a2) ops2))
+  /\ best_block_hash_ord pi1 sigma1 (tree_after h x a1 ops1) =
+     best_block_hash_ord pi2 sigma2 (tree_after h x a2 ops2).
+Proof. exact insertion_order_free_pf. Qed.
+Print Assumptions C16_every_parent_first_order.
+
 (* bestBlock itself (used by GetHashByNumber and GetHashesAtNumber), whenever the root has a
    child: the argmax, for every pair of iteration orders *)
 Theorem C16_best_block_argmax : forall h x a ops pi sigma,
@@ -105,3 +120,27 @@ Example C16_nonvacuous :
   /\ get_leaves_of (tree_after 100 0 0%Z ops) = [1; 2; 4]
   /\ best_block_hash_ord (@rev linfo) (@rev linfo) (tree_after 100 0 0%Z ops) = Ok 2.
 Proof. vm_compute. repeat split; reflexivity. Qed.
+
+(* the hypotheses of C16_every_parent_first_order are met by a real reordering *)
+Example C16_parent_first_nonvacuous :
+  let b1 := OAdd (mkHeader 1 100 1 DPrimary) 5%Z in
+  let b2 := OAdd (mkHeader 2 100 1 DPrimary) 3%Z in
+  let b3 := OAdd (mkHeader 3 100 1 DSecondaryPlain) 0%Z in
+  let b4 := OAdd (mkHeader 4 3 2 DSecondaryVRF) 0%Z in
+  Permutation [b1; b2; b3; b4] [b3; b4; b2; b1]
+  /\ all_adds_ok (snd (run (new_tree 100 0 0%Z) [b1; b2; b3; b4]))
+  /\ parent_first 100 [] [b3; b4; b2; b1]
+  /\ ~ parent_first 100 [] [b4; b3; b2; b1]
+  /\ best_block_hash (tree_after 100 0 0%Z [b3; b4; b2; b1]) = Ok 2.
+Proof.
+  cbv zeta. split; [|split; [|split; [|split]]].
+  - apply Permutation_sym.
+    apply (Permutation_trans (l' := [OAdd (mkHeader 3 100 1 DSecondaryPlain) 0%Z; OAdd (mkHeader 4 3 2 DSecondaryVRF) 0%Z;
+                                    OAdd (mkHeader 1 100 1 DPrimary) 5%Z; OAdd (mkHeader 2 100 1 DPrimary) 3%Z])).
+    + do 2 apply perm_skip. apply perm_swap.
+    + apply (Permutation_app_comm [_; _] [_; _]).
+  - vm_compute. repeat constructor.
+  - simpl. intuition.
+  - simpl. intros ([E|[]] & _). discriminate.
+  - vm_compute. reflexivity.
+Qed.
